@@ -1,8 +1,8 @@
 (* C03 -- unstructured output is primitive-only (and the documented encoding). *)
 From Coq Require Import Lia.
-From V.Model Require Import Base Templates Conv ConvSpec.
+From V.Model Require Import Base Templates Conv ConvSpec ConvEnc.
 From V.Gen Require Import GenSrc.
-From V.Proofs Require Import ConvSound ConvPrim ConvCfg.
+From V.Proofs Require Import TemplatesProofs ConvSound ConvPrim ConvEncProofs ConvCfg.
 
 (* 1. For EVERY environment of classes and enums (enum values primitive), every type expression of the
       nested universe, EVERY value x of that type ([uval]: the container kinds and classes the type
@@ -18,6 +18,25 @@ Theorem C03_output_is_primitive :
       uval E x t -> unstructure E (mk_cfg true dv tup forbid) n t x = Ok u -> primitive u = true.
 Proof. intros E dv tup forbid He. now apply unstructure_primitive. Qed.
 Print Assumptions C03_output_is_primitive.
+
+(* 1b. ... and equals the documented encoding.  [encodes] (Model/ConvEnc.v) is the documentation written down as a relation --
+      no fuel, no hooks, no templates: classes become dicts keyed by attribute name in attribute order (tuples in attribute
+      order under the tuple strategy), enums their values, sequences lists, heterogeneous tuples tuples, sets sets,
+      mappings dicts with encoded keys and values, Optional / NewType / Annotated their underlying type.  For EVERY
+      environment, every type expression, EVERY value of the type ([rt_value]), Converter under either strategy and either
+      validation mode, any fuel: what unstructure returns is related to (t, x) by [encodes], at every depth.
+      (Classes whose attributes are all __init__ arguments; forbid_extra_keys plays no part in unstructuring.) *)
+Theorem C03_equals_documented_encoding :
+  forall (E : env) (dv tup ann : bool),
+    (forall c cd, e_class E c = Some cd ->
+       wf val (topt (mk_cfg true dv tup false) c) nov (cd_fields cd) /\ (forall f, In f (cd_fields cd) -> f_init f = true)) ->
+    forall (n : nat) (t : ty) (x u : val),
+      rt_value E ann x t -> unstructure E (mk_cfg true dv tup false) n t x = Ok u -> encodes E tup t x u.
+Proof.
+  intros E dv tup ann Henv n t x u Hrt Hu.
+  exact (unstructure_is_documented_encoding E (mk_cfg true dv tup false) ann eq_refl eq_refl Henv n t x u Hrt Hu).
+Qed.
+Print Assumptions C03_equals_documented_encoding.
 
 (* 2. Class level, any payload value type, any options and overrides: every value a class hook emits is
       what the handler resolved for that attribute returned on the attribute's value (nothing is copied
@@ -54,3 +73,16 @@ Example C03_nonvacuous :
   /\ unstructure p_env (mk_cfg true true true false) 9 (TClass 1) p_x
     = Ok (VTuple [VDict [(VAtom PInt 21, VTuple [VAtom PInt 4; VSet [VAtom PStr 8]])]; VTuple [VDict []; VAtom PInt 20]]).
 Proof. split; vm_compute; reflexivity. Qed.
+
+(* the relation, used by hand on a small value: an enum-keyed mapping of heterogeneous tuples *)
+Example C03_encoding_example :
+  encodes p_env false (TDict (TEnum 0) (TTuple [TPrim PInt; TSet (TPrim PStr)]))
+          (VDict [(VEnum 0 1, VTuple [VAtom PInt 4; VSet [VAtom PStr 8]])])
+          (VDict [(VAtom PInt 21, VTuple [VAtom PInt 4; VSet [VAtom PStr 8]])]).
+Proof.
+  eapply EnDict with (ps := [(VAtom PInt 21, VTuple [VAtom PInt 4; VSet [VAtom PStr 8]])]); [|reflexivity].
+  constructor; [|constructor]. split; cbn [fst snd].
+  - apply EnEnum. reflexivity.
+  - apply EnTuple; [reflexivity|]. cbn [combine]. constructor; [apply EnPrim|]. constructor; [|constructor]. cbn [fst snd].
+    eapply EnSet with (r := [VAtom PStr 8]); [|reflexivity]. constructor; [apply EnPrim | constructor].
+Qed.
